@@ -11,6 +11,7 @@ use std::cell::RefCell;
 use std::io::Write;
 use std::rc::Rc;
 use vlib::explore::{explore, pick, Ch};
+use vlib::par::{decode, product};
 use vlib::refcpio::{read_archive, Ent};
 use vlib::refhdr::{scan, value, Val};
 use vlib::report::{catch, Acc, SubReport, Violation};
@@ -244,8 +245,250 @@ pub fn oracle_true_digests(sub: &str, x: &[u8], rank: u64, case: &dyn Fn() -> Va
     true
 }
 
+/// How a user-supplied `Signing` implementation consumes the header bytes it is handed.
+#[derive(Debug, Clone, Copy, PartialEq)]
+enum ReadMode {
+    /// read_to_end, then sign what was read (what the pgp signer does)
+    DrainAll,
+    /// read in chunks of n bytes up to EOF, sign what was read
+    DrainChunks(usize),
+    /// read up to EOF and once more after it
+    DrainAndReadAgain,
+    /// detached signature from elsewhere (HSM, signing service): the reader is never touched
+    Detached,
+    /// reads only the first n bytes, then attaches the detached signature
+    Prefix(usize),
+}
+
+const READ_MODES: [ReadMode; 7] = [ReadMode::DrainAll, ReadMode::DrainChunks(1), ReadMode::DrainChunks(7), ReadMode::DrainAndReadAgain, ReadMode::Detached, ReadMode::Prefix(16), ReadMode::Prefix(1)];
+
+#[derive(Debug)]
+struct ScriptedSigner {
+    inner: rpm::signature::pgp::Signer,
+    mode: ReadMode,
+    detached: Vec<u8>,
+    seen: RefCell<Vec<u8>>,
+}
+
+impl rpm::signature::Signing for ScriptedSigner {
+    type Signature = Vec<u8>;
+    fn sign(&self, mut data: impl std::io::Read, t: rpm::Timestamp) -> Result<Vec<u8>, rpm::Error> {
+        let mut got = vec![];
+        let drain = |data: &mut dyn std::io::Read, chunk: usize, got: &mut Vec<u8>| -> Result<(), rpm::Error> {
+            let mut buf = vec![0u8; chunk];
+            loop {
+                let n = data.read(&mut buf)?;
+                if n == 0 {
+                    return Ok(());
+                }
+                got.extend_from_slice(&buf[..n]);
+            }
+        };
+        let r = match self.mode {
+            ReadMode::DrainAll => {
+                data.read_to_end(&mut got)?;
+                self.inner.sign(got.as_slice(), t)
+            }
+            ReadMode::DrainChunks(n) => {
+                drain(&mut data, n, &mut got)?;
+                self.inner.sign(got.as_slice(), t)
+            }
+            ReadMode::DrainAndReadAgain => {
+                drain(&mut data, 64, &mut got)?;
+                let mut b = [0u8; 8];
+                let _ = data.read(&mut b)?;
+                self.inner.sign(got.as_slice(), t)
+            }
+            ReadMode::Detached => Ok(self.detached.clone()),
+            ReadMode::Prefix(n) => {
+                let mut buf = vec![0u8; n];
+                let k = data.read(&mut buf)?;
+                got.extend_from_slice(&buf[..k]);
+                Ok(self.detached.clone())
+            }
+        };
+        *self.seen.borrow_mut() = got;
+        r
+    }
+    fn algorithm(&self) -> rpm::signature::AlgorithmType {
+        rpm::signature::Signing::algorithm(&self.inner)
+    }
+}
+
+/// Signing through `Signing` implementations that consume the header bytes in different ways.
+fn signers_sub(ctx: &Ctx) -> SubReport {
+    use rpm::signature::Signing;
+    let env = Env::new(&ctx.repo, "c08s");
+    let mut rich = crate::corpus::rich();
+    rich.compression = Comp::Gzip(6);
+    let mut bare = BuildSpec::minimal();
+    bare.name = "bare".into();
+    bare.files.clear();
+    let specs = [crate::corpus::one_file(), rich, bare];
+    let keys = crate::keys::FAST_KEYS;
+    let ops = ["sign", "sign_with_timestamp", "build_and_sign"];
+    let rad = [specs.len() as u64, keys.len() as u64, READ_MODES.len() as u64, ops.len() as u64];
+    let n = product(&rad);
+    let acc = merge(vlib::par::par_fold(n, Acc::new, |i, acc| {
+        let d = decode(i, &rad);
+        let (spec, key, mode, op) = (&specs[d[0] as usize], keys[d[1] as usize], READ_MODES[d[2] as usize], ops[d[3] as usize]);
+        acc.evals += 1;
+        let case = || json!({"spec": spec.to_json(), "key": key.name(), "signer_reads": format!("{:?}", mode), "operation": op});
+        let unsigned = match catch(|| spec.build(&env)) {
+            Ok(Ok(p)) => p,
+            _ => crate::ctx::machinery("c08 signers: unsigned build failed"),
+        };
+        let ub = write_pkg(&unsigned).unwrap_or_else(|_| crate::ctx::machinery("c08 signers: unsigned write failed"));
+        let Some((_, _, _, ul)) = scan(&ub) else { crate::ctx::machinery("c08 signers: unsigned package cannot be scanned") };
+        let hbytes = ub[ul.hdr_off..ul.payload_off].to_vec();
+        let inner = env.signer(key);
+        let t: rpm::Timestamp = 1_600_000_000u32.into();
+        let detached = inner.sign(hbytes.as_slice(), t).unwrap_or_else(|e| crate::ctx::machinery(&format!("c08 signers: reference signature: {}", e)));
+        let signer = ScriptedSigner { inner, mode, detached, seen: RefCell::new(vec![]) };
+        let r = catch(|| match op {
+            "sign" => {
+                let mut p = unsigned.clone();
+                p.sign(&signer).map(|_| p)
+            }
+            "sign_with_timestamp" => {
+                let mut p = unsigned.clone();
+                p.sign_with_timestamp(&signer, 1_600_000_000u32).map(|_| p)
+            }
+            _ => spec.builder(&env).and_then(|b| b.build_and_sign(&signer)),
+        });
+        let p = match r {
+            Err(pn) => return acc.viol(panic_violation("custom-signers", &pn, case()).rank(i)),
+            Ok(Err(e)) => return acc.viol(Violation::new("custom-signers", format!("{} with a working signer failed: {}", op, e), case()).sig("clause", "sign-fails").sig("op", op).rank(i)),
+            Ok(Ok(p)) => p,
+        };
+        let drains = !matches!(mode, ReadMode::Detached | ReadMode::Prefix(_));
+        if drains && *signer.seen.borrow() != hbytes {
+            acc.viol(Violation::new("custom-signers", format!("the signer was handed {} bytes that are not the serialised header ({} bytes)", signer.seen.borrow().len(), hbytes.len()), case()).sig("clause", "signed-data-is-not-the-header").rank(i));
+        }
+        let Ok(bytes) = write_pkg(&p) else {
+            return acc.viol(Violation::new("custom-signers", "signed package cannot be written", case()).sig("clause", "write-fails").rank(i));
+        };
+        if !oracle_true_digests("custom-signers", &bytes, i, &case, acc) {
+            return;
+        }
+        acc.nontrivial += 1;
+        acc.count(&format!("{:?}", mode));
+        // the result must also satisfy the library's own verification
+        match parse_pkg(&bytes) {
+            Ok(Ok(q)) => {
+                let vd = catch(|| q.verify_digests());
+                let vs = catch(|| q.verify_signature(key.verifier(&ctx.repo)));
+                if !matches!(vd, Ok(Ok(()))) {
+                    acc.viol(Violation::new("custom-signers", format!("verify_digests rejects the package just signed: {:?}", vd.map(|r| r.map_err(|e| e.to_string())).map_err(|p| p.location())), case()).sig("clause", "own-digest-verification-fails").rank(i));
+                }
+                if !matches!(vs, Ok(Ok(()))) {
+                    acc.viol(Violation::new("custom-signers", format!("verify_signature rejects the package just signed: {:?}", vs.map(|r| r.map_err(|e| e.to_string())).map_err(|p| p.location())), case()).sig("clause", "own-signature-verification-fails").rank(i));
+                }
+            }
+            _ => acc.viol(Violation::new("custom-signers", "signed package does not re-parse", case()).sig("clause", "reparse").rank(i)),
+        }
+        if d[0] == 0 && d[1] == 0 {
+            acc.sample(i, case);
+        }
+    }));
+    SubReport::new(
+        "custom-signers",
+        "A",
+        &format!("{} packages × {} keys × Signing implementations that consume the header reader as {:?} × {{sign, sign_with_timestamp, build_and_sign}}: all {} combinations. Oracle: the four digest kinds recomputed independently on the signed package, draining signers saw exactly the header bytes, and the library's own verify_digests / verify_signature accept the result", specs.len(), keys.len(), READ_MODES, n),
+        acc,
+    )
+}
+
+/// One builder, several `with_file` calls from the *same source path* rewritten in between.
+fn source_rewrite_sub(ctx: &Ctx) -> SubReport {
+    use rpm::{FileOptions, PackageBuilder};
+    let env = Env::new(&ctx.repo, "c08r");
+    // contents: two of equal length, one of another length, empty
+    let contents: [&[u8]; 4] = [b"AAAAAAAAAAAAAAAA", b"BBBBBBBBBBBBBBBB", b"CCCC", b""];
+    let mtimes = [1_500_000_000u64, 1_500_000_001];
+    let per = (contents.len() * mtimes.len()) as u64;
+    let depth = if ctx.thorough() { 4 } else { 3 };
+    let mut n = 0u64;
+    let mut starts = vec![];
+    for k in 2..=depth {
+        starts.push((k, n));
+        n += per.pow(k as u32);
+    }
+    let acc = merge(vlib::par::par_fold(n, Acc::new, |i, acc| {
+        let (k, base) = *starts.iter().rev().find(|(_, b)| i >= *b).unwrap();
+        let mut code = i - base;
+        let path = env.dir().join(format!("slot-{}", i));
+        let mut steps = vec![];
+        let mut b = PackageBuilder::new("rewrite", "1", "MIT", "noarch", "s").compression(rpm::CompressionWithLevel::None).source_date(1_600_000_000u32);
+        let mut want: Vec<(String, Vec<u8>)> = vec![];
+        let mut failed = None;
+        for step in 0..k {
+            let c = contents[(code % contents.len() as u64) as usize];
+            code /= contents.len() as u64;
+            let mt = mtimes[(code % mtimes.len() as u64) as usize];
+            code /= mtimes.len() as u64;
+            std::fs::write(&path, c).unwrap_or_else(|e| crate::ctx::machinery(&format!("c08 rewrite: {}", e)));
+            let f = std::fs::OpenOptions::new().write(true).open(&path).expect("open slot");
+            f.set_modified(std::time::UNIX_EPOCH + std::time::Duration::from_secs(mt)).expect("set mtime");
+            drop(f);
+            let dest = format!("/data/f{}", step);
+            steps.push(json!({"content": String::from_utf8_lossy(c), "mtime": mt, "dest": dest}));
+            match catch(|| b.with_file(&path, FileOptions::new(dest.clone()))) {
+                Ok(Ok(nb)) => b = nb,
+                other => {
+                    failed = Some(format!("{:?}", other.map(|r| r.map(|_| ()).map_err(|e| e.to_string())).map_err(|p| p.location())));
+                    b = PackageBuilder::new("x", "1", "MIT", "noarch", "s");
+                    break;
+                }
+            }
+            want.push((dest, c.to_vec()));
+        }
+        let _ = std::fs::remove_file(&path);
+        acc.evals += 1;
+        let case = || json!({"one_source_path_rewritten_between_with_file_calls": steps});
+        if let Some(f) = failed {
+            return acc.viol(Violation::new("source-rewrite", format!("with_file failed: {}", f), case()).sig("clause", "build-fails").rank(i));
+        }
+        let bytes = match catch(|| b.build().and_then(|p| { let mut o = vec![]; p.write(&mut o).map(|_| o) })) {
+            Ok(Ok(o)) => o,
+            Ok(Err(e)) => return acc.viol(Violation::new("source-rewrite", format!("build failed: {}", e), case()).sig("clause", "build-fails").rank(i)),
+            Err(p) => return acc.viol(panic_violation("source-rewrite", &p, case()).rank(i)),
+        };
+        if !oracle_true_digests("source-rewrite", &bytes, i, &case, acc) {
+            return;
+        }
+        acc.nontrivial += 1;
+        // the archived content is the content the source had at the time of its with_file call
+        if let Ok(Ok(p)) = parse_pkg(&bytes) {
+            if let Ok(files) = p.files() {
+                let got: Vec<(String, Vec<u8>)> = files.filter_map(|f| f.ok()).map(|f| (f.metadata.path.to_string_lossy().to_string(), f.content)).collect();
+                let mut w = want.clone();
+                w.sort();
+                let mut g = got;
+                g.sort();
+                if g != w {
+                    acc.viol(Violation::new("source-rewrite", "the packaged contents are not the contents the source had at each with_file call", case()).sig("clause", "content").rank(i));
+                }
+            }
+        }
+        let distinct = want.iter().map(|w| &w.1).collect::<std::collections::BTreeSet<_>>().len();
+        acc.count(&format!("{} calls, {} distinct contents", k, distinct));
+        if i % 53 == 0 {
+            acc.sample(i, case);
+        }
+    }));
+    SubReport::new(
+        "source-rewrite",
+        "A (operation sequences)",
+        &format!("one PackageBuilder, 2..={} with_file calls all from the same source path; before each call the file is rewritten with one of {} contents (two of equal length, one shorter, empty) and one of {} modification times: all {} sequences. Oracle: the four digest kinds recomputed independently, and every packaged content is the content at the time of its call", depth, contents.len(), mtimes.len(), n),
+        acc,
+    )
+}
+
 pub fn run(ctx: &Ctx) -> i32 {
     let s1 = writer_sub(ctx);
+    let s_sign = signers_sub(ctx);
+    let s_rw = source_rewrite_sub(ctx);
     let s2 = crate::corpus::run_corpus(ctx, "corpus", "oracle: header SHA-256, payload digest, alternate (uncompressed) payload digest and per-file digests recomputed after independent decompression", &|sub, it, rank, acc| {
         if oracle_true_digests(sub, &it.bytes, rank, &|| it.desc.clone(), acc) {
             acc.nontrivial += 1;
@@ -286,14 +529,14 @@ pub fn run(ctx: &Ctx) -> i32 {
         }
     }));
     let s3 = SubReport::new("large-files", "A", &format!("{} builds with one file of 200 KB / 1 MiB (thorough: 2 and 8 MiB), compressible and incompressible, with every compressor incl. the default zstd-19 — sizes at which the encoders accept only part of a buffer; same four digest oracles", big.len()), b);
-    for s in [&s1, &s2, &s3] {
+    for s in [&s1, &s2, &s3, &s_sign, &s_rw] {
         if s.acc.nontrivial == 0 {
             crate::ctx::machinery(&format!("sub-check {} judged nothing: vacuous", s.name));
         }
     }
     ctx.finish(
         "fault_enumeration",
-        vec![s1, s2, s3],
+        vec![s1, s2, s3, s_sign, s_rw],
         &[
             "the decompressors (flate2, zstd, liblzma) and RustCrypto sha2 are the crates the library uses itself; the cpio reader and header decoder are the harness's own",
             "file sizes beyond 1 MiB (quick) / 8 MiB (thorough) are not covered",
